@@ -59,7 +59,7 @@ RENDER_RULES = {"text": _rr_upper, "strong_open": _rr_strong, "hr": _rr_hr}
 
 
 def budget(tier: str) -> dict:
-    return {"examples": 20000 if tier == "quick" else 500000}
+    return {"examples": 16000 if tier == "quick" else 500000}
 
 
 @st.composite
@@ -117,6 +117,8 @@ def check(case) -> Res:
     snap_make = {n: copy.deepcopy(getattr(presets, n).make()) for n in ("commonmark", "default", "zero", "js_default", "gfm_like")}
     user_preset = {n: getattr(presets, n.replace("-", "_")).make() for n in ("commonmark", "js-default", "zero", "default")}
     user_preset_snap = copy.deepcopy(user_preset)
+    BDOCS = [DOCS[4], DOCS[0]]
+    baseline = {p: [MarkdownIt(p).render(dd) for dd in BDOCS] for p in ("commonmark", "js-default", "zero")}
     shared_updates: list = []  # (mapping object, snapshot)
     insts: dict = {}
     recipes: dict = {}
@@ -199,6 +201,13 @@ def check(case) -> Res:
             if i not in insts:
                 continue
             md = insts[i]
+            other = None
+            if k in ("enable", "disable", "opt", "set_shared", "render_rule", "configure", "reset_block"):
+                cands = [j for j in insts if j != i and not (k == "set_shared" and j == op[2])]
+                if cands:
+                    other = cands[n % len(cands)]
+                    odoc = DOCS[n % len(DOCS)]
+                    before_other = (insts[other].render(odoc), dump(insts[other].parse(odoc)), dict(insts[other].options), insts[other].get_active_rules())
             if k == "call":
                 _, _, fn, doc, envmode = op
                 if envmode == "none":
@@ -266,6 +275,11 @@ def check(case) -> Res:
                     probe_uses_earlier = True
                 probe(i, doc, envmode, where)
                 parsed.add(i)
+            if other is not None:
+                after_other = (insts[other].render(odoc), dump(insts[other].parse(odoc)), dict(insts[other].options), insts[other].get_active_rules())
+                if after_other != before_other:
+                    which = ["render", "parse", "options", "active rules"][[a != b for a, b in zip(after_other, before_other)].index(True)]
+                    res.fail(f"other-instance-changed:{k}:{which}", f"{where}: instance {other} ({which}) changed although only instance {i} was configured")
         except _Boom:
             raise
         except Exception as e:  # noqa: BLE001
@@ -276,6 +290,13 @@ def check(case) -> Res:
             res.fail(f"unexpected-{type(e).__name__}", f"{where}: {e!r}")
         if res.v:
             break
+    if not res.v:
+        for p, outs in baseline.items():
+            now = [MarkdownIt(p).render(dd) for dd in BDOCS]
+            if now != outs:
+                j = [a != b for a, b in zip(now, outs)].index(True)
+                res.fail("new-instance-affected-by-history", f"a brand-new MarkdownIt({p!r}) renders {BDOCS[j]!r} as {now[j]!r}; before the history it gave {outs[j]!r}"[:600])
+                break
     if mainmod._PRESETS != snap_presets:
         res.fail("module-presets-mutated", "markdown_it.main._PRESETS changed during the history")
         mainmod._PRESETS.clear()
